@@ -1,7 +1,6 @@
 CONSTANTS
   Ms = {3}
-  CnMaxs = {2000}
-  FsSet = {0, 1}
+  Modes = {0, 2}
   XMax = 1
   QMax = 1
   Margin = 20000
